@@ -8,7 +8,7 @@
    An index map sends a voxel index of the result to [Some] index of the receiver or to
    [None] (= new voxel, padding). *)
 From Coq Require Import String ZArith List Bool QArith Qcanon.
-From HD Require Import C08_Model C08_Proofs C08_Proofs_Step C08_Proofs_More C08_Proofs_Qc C08_Proofs_Top.
+From HD Require Import C08_Model C08_Proofs C08_Proofs_Step C08_Proofs_More C08_Proofs_Qc C08_Proofs_Ext C08_Proofs_Orient C08_Proofs_Top.
 Import ListNotations.
 Open Scope string_scope.
 Open Scope Z_scope.
@@ -221,6 +221,148 @@ Theorem C08_premises_inhabited :
   (forall x, x <> Q2Qc 0 -> qc_ltb (Qcopp x) (Q2Qc 0) = negb (qc_ltb x (Q2Qc 0))).
 Proof. exact (conj Zring_Qc qc_ltb_opp). Qed.
 Print Assumptions C08_premises_inhabited.
+
+(* 10. to_patient_orientation reaches the requested orientation.  [Dom A (m0,p0) (m1,p1) (m2,p2)]:
+       column d of A has a strictly dominant, non-zero component on patient axis m_d (its key
+       -|x| is strictly below the other two under [ltb]), of sign p_d, and m0, m1, m2 differ - the
+       affines without 45-degree ties.  On them get_closest_patient_orientation is the arg-max
+       rule, and for each of the 48 valid requests the operation is accepted and the closest
+       orientation of its result IS the request.  [SignLaws]: -x<0 <-> 0<x, 0<-x <-> x<0, not both
+       x<0 and 0<x, neither only for x = 0. *)
+Theorem C08_closest_is_argmax : forall R rO ropp ltb (A : aff R) s0 s1 s2,
+  Dom R rO ropp ltb A s0 s1 s2 -> closest R rO ropp ltb A = [code s0; code s1; code s2].
+Proof. exact closest_dominant. Qed.
+Print Assumptions C08_closest_is_argmax.
+
+Theorem C08_orientation_reached :
+  forall R rO rI radd rmul rsub ropp inj ltb Vx padval,
+  Zring R rO rI radd rmul rsub ropp inj -> SignLaws R rO ropp ltb ->
+  forall v o v' f s0 s1 s2,
+  wf (v_shape R Vx v) -> Dom R rO ropp ltb (v_aff R Vx v) s0 s1 s2 ->
+  vol_step_sp R rO radd rmul rsub ropp inj ltb Vx padval v (OOrient o) = Ok (v', f) ->
+  closest R rO ropp ltb (v_aff R Vx v') = o.
+Proof. exact top_orientation_reached. Qed.
+Print Assumptions C08_orientation_reached.
+
+Theorem C08_orientation_accepted :
+  forall R rO rI radd rmul rsub ropp inj ltb Vx padval,
+  Zring R rO rI radd rmul rsub ropp inj -> SignLaws R rO ropp ltb ->
+  forall v o d s0 s1 s2,
+  wf (v_shape R Vx v) -> Dom R rO ropp ltb (v_aff R Vx v) s0 s1 s2 -> v_patient R Vx v = true ->
+  normalize_orientation o = Ok d ->
+  exists v' f, vol_step_sp R rO radd rmul rsub ropp inj ltb Vx padval v (OOrient o) = Ok (v', f) /\
+               closest R rO ropp ltb (v_aff R Vx v') = o.
+Proof. exact top_orientation_accepted. Qed.
+Print Assumptions C08_orientation_accepted.
+
+Theorem C08_sign_laws_inhabited : SignLaws Qc (Q2Qc 0) Qcopp qc_ltb.
+Proof. exact SignLaws_Qc. Qed.
+Print Assumptions C08_sign_laws_inhabited.
+
+(* 11. nothing but pad creates voxels: every voxel of the result of any other spatial operation
+       (getitem, flip, permute, swap, crop_to, orientation, handedness, random flip / permutation /
+       crop) has a pre-image in the receiver - for one operation and for every history without
+       pad; flips, permutations, swaps, re-orientation, handedness fixes and their random
+       variants re-arrange: the index map is a bijection of the two index boxes (no voxel lost,
+       none duplicated) - for one operation and for every history of such operations *)
+Theorem C08_only_pad_creates_voxels :
+  forall R rO radd rmul rsub ropp inj ltb Vx padval (v : vol R Vx) o v' f,
+  nopad o = true -> vol_step_sp R rO radd rmul rsub ropp inj ltb Vx padval v o = Ok (v', f) ->
+  wf (v_shape R Vx v) ->
+  wf (v_shape R Vx v') /\
+  forall j, inr (v_shape R Vx v') j -> exists i, f j = Some i /\ inr (v_shape R Vx v) i.
+Proof. exact step_nopad_total. Qed.
+Print Assumptions C08_only_pad_creates_voxels.
+
+Theorem C08_rearrangements_are_bijections :
+  forall R rO radd rmul rsub ropp inj ltb Vx padval (v : vol R Vx) o v' f,
+  rearr o = true -> vol_step_sp R rO radd rmul rsub ropp inj ltb Vx padval v o = Ok (v', f) ->
+  wf (v_shape R Vx v) ->
+  wf (v_shape R Vx v') /\
+  (forall j, inr (v_shape R Vx v') j -> exists i, f j = Some i /\ inr (v_shape R Vx v) i) /\
+  (forall i, inr (v_shape R Vx v) i -> exists j, inr (v_shape R Vx v') j /\ f j = Some i) /\
+  (forall j j' i, inr (v_shape R Vx v') j -> inr (v_shape R Vx v') j' -> f j = Some i -> f j' = Some i -> j = j').
+Proof. exact step_rearr_bijective. Qed.
+Print Assumptions C08_rearrangements_are_bijections.
+
+Theorem C08_history_without_pad_creates_no_voxel :
+  forall R rO radd rmul rsub ropp inj ltb Vx padval ops (v : vol R Vx),
+  forallb (op_nopad Vx) ops = true -> wf (v_shape R Vx v) ->
+  let r := run_tr R rO radd rmul rsub ropp inj ltb Vx padval v ops in
+  wf (v_shape R Vx (fst r)) /\
+  forall j, inr (v_shape R Vx (fst r)) j -> exists i, snd r j = Some i /\ inr (v_shape R Vx v) i.
+Proof. exact history_nopad_total. Qed.
+Print Assumptions C08_history_without_pad_creates_no_voxel.
+
+Theorem C08_history_of_rearrangements_is_bijection :
+  forall R rO radd rmul rsub ropp inj ltb Vx padval ops (v : vol R Vx),
+  forallb (op_rearr Vx) ops = true -> wf (v_shape R Vx v) ->
+  let r := run_tr R rO radd rmul rsub ropp inj ltb Vx padval v ops in
+  wf (v_shape R Vx (fst r)) /\
+  (forall j, inr (v_shape R Vx (fst r)) j -> exists i, snd r j = Some i /\ inr (v_shape R Vx v) i) /\
+  (forall i, inr (v_shape R Vx v) i -> exists j, inr (v_shape R Vx (fst r)) j /\ snd r j = Some i) /\
+  (forall j j' i, inr (v_shape R Vx (fst r)) j -> inr (v_shape R Vx (fst r)) j' ->
+     snd r j = Some i -> snd r j' = Some i -> j = j').
+Proof. exact history_rearr_bijective. Qed.
+Print Assumptions C08_history_of_rearrangements_is_bijection.
+
+(* 12. the geometry-only object driven through the SAME finite history (it follows spatial
+       operations and copy, is left alone by channel operations and with_array, stays as it was
+       when it refuses) ends with exactly the geometry of the volume - every history whose pad
+       modes are valid names *)
+Theorem C08_history_geometry_commutes :
+  forall R rO radd rmul rsub ropp inj ltb Vx padval ops (v : vol R Vx),
+  Forall (op_modes_ok Vx) ops ->
+  geom_of R Vx (run R rO radd rmul rsub ropp inj ltb Vx padval v ops) =
+  grun R rO radd rmul rsub ropp inj ltb Vx (geom_of R Vx v) ops.
+Proof. exact history_geometry_commutes. Qed.
+Print Assumptions C08_history_geometry_commutes.
+
+(* 13. only the three spatial dimensions can be indexed (fix D92): more than three index items
+       are refused by volume and geometry alike, so no index reaches the channel axes *)
+Theorem C08_getitem_more_than_three_items_refused :
+  forall R rO radd rmul rsub ropp inj ltb Vx padval (v : vol R Vx) ix,
+  3 < Z.of_nat (length (items_of_index ix)) ->
+  step R rO radd rmul rsub ropp inj ltb Vx padval v (Sp (OGet ix)) = Err "IndexError" /\
+  gstep R rO radd rmul rsub ropp inj ltb Vx (geom_of R Vx v) (Sp (OGet ix)) = Some (Err "IndexError").
+Proof. exact getitem_too_many_refused. Qed.
+Print Assumptions C08_getitem_more_than_three_items_refused.
+
+Theorem C08_getitem_accepts_at_most_three_items :
+  forall R rO radd rmul rsub ropp inj ltb Vx padval (v : vol R Vx) ix r,
+  vol_step_sp R rO radd rmul rsub ropp inj ltb Vx padval v (OGet ix) = Ok r ->
+  Z.of_nat (length (items_of_index ix)) <= 3.
+Proof. exact getitem_accepts_at_most_three. Qed.
+Print Assumptions C08_getitem_accepts_at_most_three_items.
+
+(* ---- non-vacuity of 10-12 *)
+Example C08_example_dominant : Dom Qc (Q2Qc 0) Qcopp qc_ltb ex_aff (2, true) (1, false) (0, false).
+Proof. exact ex_dom. Qed.
+Print Assumptions C08_example_dominant.
+
+Example C08_example_orientation :
+  wf (v_shape _ _ ex_vol2) /\
+  closest Qc (Q2Qc 0) Qcopp qc_ltb (v_aff _ _ ex_vol2) = [4; 3; 1] /\
+  match q_step_tr ex_vol2 (Sp (OOrient [5; 2; 0])) with
+  | Ok (v', f) => closest Qc (Q2Qc 0) Qcopp qc_ltb (v_aff _ _ v') = [5; 2; 0] /\
+                  v_shape _ _ v' = (2, 3, 2) /\ f (0, 0, 0) = Some (1, 2, 1)
+  | Err _ => False
+  end.
+Proof. exact ex_orientation. Qed.
+Print Assumptions C08_example_orientation.
+
+Example C08_example_rearrangements :
+  forallb (op_rearr Q) ex_ops_rearr = true /\ forallb (op_nopad Q) (Sp (OCropTo [1; 2; 2]) :: ex_ops_rearr) = true /\
+  let r := run_tr Qc (Q2Qc 0) Qcplus Qcmult Qcminus Qcopp qc_inj qc_ltb Q q_padval ex_vol2 ex_ops_rearr in
+  v_shape _ _ (fst r) = (3, 2, 2) /\ snd r (0, 0, 0) = Some (1, 0, 0) /\ snd r (2, 1, 1) = Some (0, 2, 1).
+Proof. exact ex_rearr. Qed.
+Print Assumptions C08_example_rearrangements.
+
+Example C08_example_geometry_history :
+  Forall (op_modes_ok Q) ex_ops_rearr /\
+  g_shape _ (grun Qc (Q2Qc 0) Qcplus Qcmult Qcminus Qcopp qc_inj qc_ltb Q (geom_of _ _ ex_vol2) ex_ops_rearr) = (3, 2, 2).
+Proof. exact ex_geometry_history. Qed.
+Print Assumptions C08_example_geometry_history.
 
 (* ---- non-vacuity: a rotated, left-handed 2x3x2 volume with one channel dimension; a history
    of five accepted operations incl. a negative-step slice ending at index 0, a per-channel
